@@ -608,21 +608,24 @@ class RecordContextMatcher:
             return AST_OPERATORS[type(node.op)](self.eval(node.operand))
         elif isinstance(node, ast.Compare):
             left = self.eval(node.left)
-            right = self.eval(node.comparators[0])
+            result = True
 
-            # print [AST_COMPARATORS[type(node.ops[0])](getattr(self.rec, l.name), right) for l in left]
-            # return [AST_COMPARATORS[type(node.ops[0])](getattr(self.rec, l.name), right) for l in left]
+            # A chained comparison (a < b < c) is the conjunction of its links, every operand evaluated once
+            for op, comparator in zip(node.ops, node.comparators):
+                right = self.eval(comparator)
+                comptype = type(op)
+                comp = AST_COMPARATORS[comptype]
 
-            comptype = type(node.ops[0])
-            comp = AST_COMPARATORS[comptype]
+                # Special case for __contains__, where we need to first unwrap all values matching the Type query
+                if comptype in (ast.In, ast.NotIn) and isinstance(left, TypeMatcherInstance):
+                    result = any(comp(v, right) for v in left._values())
+                else:
+                    result = comp(left, right)
 
-            # Special case for __contains__, where we need to first unwrap all values matching the Type query
-            if comptype in (ast.In, ast.NotIn) and isinstance(left, TypeMatcherInstance):
-                for v in left._values():
-                    if comp(v, right):
-                        return True
-                return False
-            return comp(left, right)
+                if not result:
+                    return result
+                left = right
+            return result
         elif isinstance(node, ast.Call):
             if not isinstance(node.func, (ast.Attribute, ast.Name)):
                 raise InvalidOperation("Error, only ast.Attribute or ast.Name are expected")
